@@ -161,7 +161,9 @@ PROPS = {
                    "the RFC 6241 section 8 table attaches to the request (sent_implies_permitted, for the repaired builders; "
                    "_partial + three counter-examples for the code as it is); conversely a build whose operation and call "
                    "arguments are permitted and whose mandatory parameters are present succeeds "
-                   "(permitted_implies_buildable); a failed build leaves the transport untouched. The builder model is tied "
+                   "(permitted_implies_buildable); a failed build leaves the transport untouched; capability recognition is "
+                   "exact (classify_*_iff: no query, no fragment, exact scheme/path; url_schemes_mem_iff: only parameters "
+                   "named `scheme`). The builder model is tied "
                    "to /repo by issuing every operation x call combination through real Sessions (one per capability set) "
                    "and comparing Err(kind) / the parsed wire bytes with the model; the RFC table is evaluated on what was "
                    "found on the wire.",
@@ -344,7 +346,11 @@ PROPS = {
                    "list an established session uses the framing RFC 6242 4.1 requires (established_is_usable), with "
                    "the pinned snapshot's counter-example (v11_unusable_cex). Tied to the code by feeding generated "
                    "hellos to the real Session::new over the in-memory transport and reading the client's own hello "
-                   "off the wire.",
+                   "off the wire. Exactness: for every URI decomposition a table capability is recognised iff scheme, "
+                   "authority and path are exactly the table's and there is no query and no fragment, not even an empty "
+                   "one (classify_*_iff, parseCapability_base10_iff), the :url schemes are exactly the values of the "
+                   "parameters named `scheme` (mem_urlSchemes_iff), and without a capability text that decomposes to "
+                   "exactly :base:1.0 no session is established (established_has_exact_base10, establish_iff_exact).",
         level_note="URI validity/decomposition (iri-string) and tokenisation (quick-xml) are annotated inputs. Usability "
                    "rests on the modelling fact that every transport implements end-of-message framing only (C06 model); "
                    "a chunked-framing server is not exercised.",
@@ -500,7 +506,11 @@ PROPS = {
                    "map, transport inbox, gate for send back-pressure). Theorems over every reachable state (arbitrary "
                    "action lists): fresh ids, own reply only, no reply delivered twice, unknown ids never delivered, "
                    "receive lock never leaked, completion under a responsive server. The real Session is polled by hand "
-                   "(no-op waker) along generated schedules and compared with the model state by state.",
+                   "(no-op waker) along generated schedules and compared with the model state by state. Ids of failed "
+                   "calls included: every executed send draws exactly nextId+1 whatever its outcome, no other action "
+                   "touches the counter, so the ids drawn by all sends are 1..nextId, pairwise distinct "
+                   "(send_draws_next_id, nextId_never_decreases, ids_never_reused; rollback_reuses_id_cex for the variant "
+                   "that gives the id back).",
         level_note="Sound at .await granularity because all shared session state is behind tokio async mutexes (argued in "
                    "Model/Session.lean, not proved); tokio Mutex FIFO hand-off is an assumption exercised by the run. "
                    "Thread-level preemption inside tokio and waker delivery are not modelled.",
